@@ -205,6 +205,7 @@ def check_C03(ctx):
     Ls3 = core.load_cases(en)
     for L in Ls2 + Ls3:
         ctx.record_case(L.case)
+    theorem_domain(ctx, [L.case for L in Ls + Ls2 + Ls3])
     for L in Ls + Ls2 + Ls3:
         if L.impl[0] != 'ok':
             if L.case.histories is not None:
@@ -227,6 +228,39 @@ def check_C03(ctx):
             report_parser_layer(ctx, L, diffs, 'props/C03.v: c03_levels')
         else:
             ctx.counts['parser_layer_agree'] += 1
+
+
+def has_loft(items):
+    for it in items:
+        if it[0] == 'g' and it[2] is not None:
+            return True
+        if it[0] == 'og' and has_loft(it[3]):
+            return True
+        if it[0] == 'pg' and has_loft(it[2]):
+            return True
+    return False
+
+
+def theorem_domain(ctx, cases):
+    """how much of the explored domain do the theorems about consistent inputs speak about?  The extracted check
+    SpellCheck.consistentb (sound for WholeFacts.consistent, not claimed complete) is run on every generated
+    consistent case together with its ordered histories.  Recorded in the evidence; not a verdict on /repo."""
+    todo = [c for c in cases if c.consistent and getattr(c, 'ohists', None) and not getattr(c, 'oma', False)]
+    if FORCED is not None or not todo:
+        return
+    reps = model.run_requests([model.consistent_req(c) for c in todo])
+    for c, r in zip(todo, reps):
+        ctx.counts['theorem_domain_checked'] += 1
+        if r[0] == 'ok' and str(r[1]) == '1':
+            ctx.counts['theorem_domain_inside'] += 1
+        elif has_loft(c.groups):
+            ctx.counts['theorem_domain_outside_LOFT_attribute'] += 1
+        elif any(g[1] is None and g[2] is None for g in c.groups) or len(set(g[1] if g[1] is not None else g[2] for g in c.groups)) < len(c.groups):
+            ctx.counts['theorem_domain_outside_ids'] += 1
+        else:
+            ctx.counts['theorem_domain_outside_other'] += 1
+            if len(ctx.notes) < 5:
+                ctx.notes.append('consistentb rejects a generated consistent case without LOFT: %s' % c.xml(one_line=True)[:400])
 
 
 # ------------------------------------------------------------------ C04
@@ -1400,7 +1434,9 @@ def all_groups(items):
 
 
 def check_C19(ctx):
-    Ls = loaded_stream(ctx, ctx.scale(400, 5000), p_annot=0.7, p_pg_annot=0.4, p_loft=0.4, p_og_attr=0.2)
+    # the predicate identifies a group by (id, member genes): ids are kept pairwise different in this stream (the
+    # streams of the other checks let nested groups repeat ids; annotations there are covered by the parser-layer correspondence)
+    Ls = loaded_stream(ctx, ctx.scale(400, 5000), p_annot=0.7, p_pg_annot=0.4, p_loft=0.4, p_og_attr=0.2, p_reuse_ids=0.0)
     for L in Ls:
         if L.impl[0] != 'ok':
             continue
